@@ -346,6 +346,43 @@ def h_r1(p: Project, rep: Report):
             call = parent(par)
             ok = isinstance(call, ast.Call) and not call.args and par.attr == "strip"
             rep.check("H-R1", "parse_header:v1-body-strip", ok, f"the body is stripped with {text(call)[-30:]}: characters other than surrounding whitespace are removed" if not ok else "", hloc(p, x))
+    # path by path: a v1 return repositions the source before it reads the body, and hands the decoded rest over
+    # untouched (only surrounding whitespace stripped)
+    import re as _re
+    from . import paths as _PT
+
+    try:
+        ppl = _PT.enumerate_paths(fn, None, Expander(fn), resolve=False)
+    except AnalysisError as e:
+        rep.note(f"H-R1 undecided: {e}")
+        ppl = None
+    if ppl is not None:
+        pcfg = ppl.cfg
+        v1parse = [n.id for n in pcfg.nodes if n.stmt is not None and n.kind not in ("join", "handlers") and any(text(c.func) == "OFXHeaderV1.parse" for c in n.calls())]
+        seek_ids = [n.id for n in pcfg.nodes if n.stmt is not None and n.kind not in ("join", "handlers") and any(isinstance(c.func, ast.Attribute) and c.func.attr == "seek" and text(c.func.value) == src and c.args and not (isinstance(c.args[0], ast.Constant) and c.args[0].value == 0) for c in n.calls())]
+        read_ids = [n.id for n in pcfg.nodes if n.stmt is not None and n.kind not in ("join", "handlers") and any(text(c.func) == f"{src}.read" for c in n.calls())]
+        skipped = altered = None
+        seen_v1 = 0
+        for q in ppl:
+            if q.outcome != "return" or not any(i in q.nodes for i in v1parse):
+                continue
+            seen_v1 += 1
+            pidx = min(q.nodes.index(i) for i in v1parse if i in q.nodes)
+            ridx = [q.nodes.index(i) for i in read_ids if i in q.nodes and q.nodes.index(i) > pidx]
+            if ridx and not any(i in q.nodes and pidx < q.nodes.index(i) < ridx[0] for i in seek_ids):
+                skipped = _PT.simple_conds(q.conds)
+            v = q.value
+            if isinstance(v, ast.Tuple) and len(v.elts) == 2:
+                body_t = text(_PT.value_on_path(q, pcfg, v.elts[1], upto=len(q.nodes) - 1))
+                if _re.fullmatch(_re.escape(src) + r"\.read\(\)\.decode\([\w.]+\.codec\)(\.strip\(\))?", body_t):
+                    pass
+                elif f"{src}.read().decode(" in body_t and (_re.search(r"\)\[[^\]]*:[^\]]*\]", body_t) or ".rfind(" in body_t or ".find(" in body_t or ".replace(" in body_t or ".split(" in body_t or ".partition(" in body_t or ".rpartition(" in body_t):
+                    altered = body_t
+                else:
+                    rep.note(f"H-R1 undecided: v1 body returned as {body_t[:100]}")
+        if seen_v1:
+            rep.check("H-R1", "parse_header:v1-repositions-on-every-path", skipped is None, f"a version-1 path reads the body without repositioning the source first (taken when {skipped}): the lines read ahead for the header are lost from the body" if skipped is not None else "", hloc(p, fn0))
+            rep.check("H-R1", "parse_header:v1-body-handed-over-whole", altered is None, f"the version-1 body is returned as {altered[:110] if altered else ''}: part of the decoded remainder is cut or rewritten before the parser sees it (text after the last end tag would no longer be refused)" if altered is not None else "", hloc(p, fn0))
     strips = [c_ for c_ in ast.walk(fn) if isinstance(c_, ast.Call) and isinstance(c_.func, ast.Attribute) and c_.func.attr in ("strip", "lstrip", "rstrip") and c_.args]
     for c_ in strips:
         rep.check("H-R1", "parse_header:strip-with-characters", False, f"{text(c_)[:60]} removes characters other than whitespace", hloc(p, c_))
